@@ -24,6 +24,9 @@ package main
 //	         LAST PollDelay sleep of the poller's attempt loop – after the last empty read, before the os.Stat
 //	         size/offset comparison (PollDelay is scaled to 20ms for this: the append is issued ReadAttempts x
 //	         PollDelay - PollDelay/2 after the release); notify reader: release, then append
+//	t<n>     truncate the file at the path to n bytes, in place (copytruncate rotation; no-op if there is none or it is
+//	         not longer than n); the bytes appended last are no longer waited for
+//	q<hex>   append without expecting delivery (the steps `w`, `d` and the end of the history do not wait for these bytes)
 //
 // Answer: ok <delivered hex> eof=<0|1> drainerr=<0|1>.  All waits are bounded; a wait that expires
 // just lets the history go on (the final stream is then compared as it is).
@@ -202,6 +205,16 @@ func c15Follow(f []string) string {
 		switch st[0] {
 		case 'a':
 			appendBytes(UnHex(arg))
+		case 'q':
+			appendBytes(UnHex(arg))
+			last = nil
+		case 't':
+			n, _ := strconv.Atoi(arg)
+			if st, err := os.Stat(path); err == nil && st.Size() > int64(n) {
+				os.Truncate(path, int64(n))
+				c15Counters["history.truncate"]++
+			}
+			last = nil
 		case 'p':
 			ms, _ := strconv.Atoi(arg)
 			time.Sleep(time.Duration(ms) * time.Millisecond)
@@ -491,7 +504,127 @@ func c15GenCase(r *Rand) string {
 	return fmt.Sprintf("follow %s %d %d %s", mode, ro, tl, strings.Join(g.steps, ","))
 }
 
+// exactly n bytes
+func (g *c15Gen) exact(n int) []byte {
+	g.k++
+	b := []byte(fmt.Sprintf("%03d:", g.k%1000))
+	for len(b) < n {
+		b = append(b, Pick(g.r, c15Alpha))
+	}
+	return b[:n]
+}
+
+// In-place truncation (copytruncate rotation): outside the property, the behaviour of both readers is in the model
+// (Rare.Model.C15Trunc).  The reader has delivered everything (offset P = size) when the file is truncated to n bytes;
+// classes: 0 the new generation stays below P, 1 grows back to exactly P, 2 grows past P, 3 partial truncation (n > 0).
+// Everything that could race with the poller's size comparison happens while the consumer is parked (H ... r), or
+// leaves the file shorter than P until the restart has been observed (`a<short>,w`).
+func c15GenTruncCase(r *Rand) string {
+	g := &c15Gen{r: r}
+	mode := Pick(r, []string{"notify", "poll"})
+	reopen := r.Bool()
+	tail := r.Chance(1, 3)
+	size := 0
+	app := func(kind string, b []byte) { g.add(kind + Hex(b)); size += len(b) }
+	if r.Chance(1, 4) {
+		g.add("i-")
+	} else {
+		b := g.chunk(3, 40)
+		g.add("i" + Hex(b))
+		size = len(b)
+	}
+	if r.Chance(1, 2) {
+		g.add(fmt.Sprintf("B%d", Pick(r, []int{1, 2, 3, 7, 16, 64, 4096})))
+	}
+	if mode == "poll" && r.Chance(1, 2) {
+		g.add(fmt.Sprintf("A%d", Pick(r, []int{1, 2, 3, 5})))
+	}
+	for i, n := 0, r.Intn(3); i < n; i++ {
+		app("a", g.chunk(3, 12))
+	}
+	restarts := mode == "poll" && reopen // the reader that takes a shorter file for a new one
+	cls := r.Intn(4)
+	windowed := r.Bool() || (restarts && (cls == 1 || cls == 2))
+	if windowed {
+		app("H", g.chunk(12, 24))
+	} else {
+		app("a", g.chunk(12, 24))
+		g.add("w")
+	}
+	P := size // >= 16
+	n := 0
+	if cls == 3 {
+		n = r.Range(1, P-12)
+	}
+	g.add(fmt.Sprintf("t%d", n))
+	size = n
+	c15Counters[fmt.Sprintf("gen.truncate.class%d.%s.reopen%v", cls, mode, reopen)]++
+	if !windowed && r.Bool() {
+		g.add(fmt.Sprintf("p%d", r.Range(0, 10)))
+	}
+	switch cls {
+	case 0, 3:
+		if windowed || !restarts {
+			if cls == 0 || r.Bool() {
+				app("q", g.short())
+			}
+		}
+	case 1:
+		if r.Bool() && P-size > 8 {
+			app("q", g.exact(4))
+		}
+		app("q", g.exact(P-size))
+	case 2:
+		if r.Bool() {
+			app("q", g.exact(P-size))
+			app("q", g.exact(r.Range(1, 20)))
+		} else {
+			app("q", g.exact(P-size+r.Range(1, 20)))
+		}
+	}
+	if windowed {
+		g.add(fmt.Sprintf("p%d", r.Range(5, 30)))
+		g.add("r")
+	}
+	caughtUp := size >= P
+	if restarts && size < P {
+		// wait until the restart has been seen: a short chunk that keeps the file below the old offset
+		app("a", g.short())
+		g.add("w")
+		caughtUp = true
+	}
+	if !caughtUp && r.Bool() { // still blind: cross the old offset now, the part beyond it is delivered
+		g.add(fmt.Sprintf("p%d", r.Range(5, 20)))
+		app("q", g.exact(P-size+r.Range(1, 20)))
+		g.add("p20")
+		caughtUp = true
+	}
+	if caughtUp && r.Chance(2, 3) {
+		for i, k := 0, r.Range(1, 2); i < k; i++ {
+			app("a", g.chunk(3, 12))
+			if r.Bool() {
+				g.add("w")
+			}
+		}
+	}
+	ro, tl := 0, 0
+	if reopen {
+		ro = 1
+	}
+	if tail {
+		tl = 1
+	}
+	return fmt.Sprintf("follow %s %d %d %s", mode, ro, tl, strings.Join(g.steps, ","))
+}
+
 func c15GenAll(r *Rand, tier string) []string {
+	if v, err := strconv.Atoi(os.Getenv("VERIF_C15_ONLY_TRUNC")); err == nil && v > 0 { // by hand: only truncation histories
+		var out []string
+		for i := 0; i < v; i++ {
+			out = append(out, c15GenTruncCase(r))
+		}
+		return out
+	}
 	n := 40
 	if tier == "thorough" {
 		n = 600
@@ -499,6 +632,13 @@ func c15GenAll(r *Rand, tier string) []string {
 	out := make([]string, 0, n)
 	for i := 0; i < n; i++ {
 		out = append(out, c15GenCase(r))
+	}
+	nt := 12
+	if tier == "thorough" {
+		nt = 160
+	}
+	for i := 0; i < nt; i++ {
+		out = append(out, c15GenTruncCase(r))
 	}
 	// observation point (b): the real code runs HERE, the observed batch lengths become part of the case
 	out = append(out, c15TailGenAll(r, tier)...)
@@ -543,6 +683,9 @@ func c15Stats(cases []string) map[string]int {
 		}
 		if strings.HasPrefix(f[4], "n") {
 			st["history.absent_at_start"]++
+		}
+		if strings.Contains(h, ",t") {
+			st["history.truncate_in_place."+f[1]+".reopen"+f[2]]++
 		}
 		st["steps.total"] += strings.Count(f[4], ",") + 1
 	}
